@@ -38,7 +38,7 @@ import (
 //	                                      of that entry and did so again when the case ran alone
 //	                                      (raised by the framework's parent)
 //	alloc:<site>                          runtime.MemStats.TotalAlloc grew by more than
-//	                                      A + 512*len(input) during ONE call, A = max(16 MiB,
+//	                                      A + 512*len(input) during ONE call, A = max(64 MiB,
 //	                                      4 x the largest growth any genuine seed caused at that
 //	                                      entry in this worker), AND on an immediate repeat the heap
 //	                                      held more than that bound at some moment; <site> is the
@@ -46,7 +46,7 @@ import (
 //	                                      of that repeat (heap profile). alloc:<entry>:<family> when
 //	                                      the site is not in the library. Counters
 //	                                      "alloc_violations <entry> <family>" give the breakdown.
-//	cpu:<entry>:<family>                  thread CPU time of one call above max(2 s + 10 ns*n^2,
+//	cpu:<entry>:<family>                  thread CPU time of one call above max(10 s + 10 ns*n^2,
 //	                                      20 x slowest genuine seed) x current machine slowdown, and
 //	                                      again on an immediate repeat
 //	cpu:<entry>:growth:<scale>            doubling family: exponent > 2.5 over both of the last two
@@ -55,9 +55,9 @@ import (
 // Reading decisions are listed in the Assumptions of the spec.
 
 const (
-	c12AllocFloor    = 16 << 20
+	c12AllocFloor    = 64 << 20
 	c12AllocPerByte  = 512
-	c12CPUFloor      = 2 * time.Second
+	c12CPUFloor      = 10 * time.Second
 	c12CPUQuadNs     = 10              // ns per octet^2
 	c12GenuineX      = 20              // CPU margin over the slowest genuine input
 	c12ViolCap       = 4               // violations per key and worker process; the rest is only counted
@@ -85,10 +85,10 @@ func init() {
 		MinEvaluations:   100000,
 		Assumptions: []string{
 			"an error return and an acceptance are both fine for every input; only a panic, process death, runaway allocation or runaway CPU time is a violation",
-			"allocation is screened by runtime.MemStats.TotalAlloc growth of the single-threaded call (cumulative bytes allocated), bound A + 512 x input length, A = max(16 MiB, 4 x the largest growth of a genuine seed at that entry in the same worker, measured warm); because the cumulative count also contains the garbage of long big-number computations, a verdict additionally needs an immediate repeat (collector at GOGC 2, heap sampled every ~50 us) during which the heap HELD more than the bound at some moment; overshoots that are only cumulative are counted, not flagged",
+			"allocation is screened by runtime.MemStats.TotalAlloc growth of the single-threaded call (cumulative bytes allocated), bound A + 512 x input length, A = max(64 MiB, 4 x the largest growth of a genuine seed at that entry in the same worker, measured warm); because the cumulative count also contains the garbage of long big-number computations, a verdict additionally needs an immediate repeat (collector at GOGC 2, heap sampled every ~50 us) during which the heap HELD more than the bound at some moment; overshoots that are only cumulative are counted, not flagged",
 			"volume inputs are clamped so that no octet pair reads as a 4-octet BER length of 32 MiB or more: with a reader that allocates the claimed length first (H8) every such mutant would kill or stall the worker; the larger claims are directed families",
 			"per worker process the first two allocation overshoots of an entry (24 overall) get the confirming repeat and the allocation-site analysis; the key of an allocation finding is alloc:<innermost library function of the largest allocation site> (alloc:<entry>:<family> when that site is outside the library), the (entry, family) breakdown is in the counters alloc_violations / alloc_bound_exceeded_not_analysed",
-			"time is thread CPU time (CLOCK_THREAD_CPUTIME_ID, worker goroutine locked to its thread), bound max(2 s + 10 ns x n^2, 20 x slowest genuine seed) scaled by how much slower a fixed reference workload runs at that moment than at worker start, and needs a confirming repeat; a bound missed only on the first run is counted, not flagged",
+			"time is thread CPU time (CLOCK_THREAD_CPUTIME_ID, worker goroutine locked to its thread), bound max(10 s + 10 ns x n^2, 20 x slowest genuine seed) scaled by how much slower a fixed reference workload runs at that moment than at worker start, and needs a confirming repeat; a bound missed only on the first run is counted, not flagged",
 			"'small polynomial' is read as at most quadratic with some slack: growth is flagged only when both of the last two doublings of a family show an exponent above 2.5, together with more than 1 s at the largest size, and the same on a repeat of all three sizes; volume inputs are capped at 64 KiB so that legitimately quadratic work (RSA with a 64 KiB modulus) stays far below the 60 s watchdog",
 			"a panic that reader.ReadDocument recovers and returns as an error is an error, not a violation; panics are attributed to the innermost library frame on the stack",
 			"the worker runs with traceback level 'crash' and a zero core limit so that a Go fatal error (out of memory under RLIMIT_AS 3 GiB, stack exhaustion) ends the process with SIGABRT and is attributed by the parent; the 4 GiB length claims run alone in their case",
